@@ -15,8 +15,7 @@ META = {
             "and all fuels that suffice, exec over gen_env and exec over vm_env return the same result kind, position, token queue, stack "
             "contents, attempt position and attempt lists, hence the same Pairs / the same error position, positives and negatives; "
             "C02_termination_equivalent: the generated parser returns exactly when the VM returns (simulation in both directions). H excludes "
-            "exactly the classes in which the two back-ends really differ (WHITESPACE/COMMENT declared `!`; a user rule named like a "
-            "built-in the VM hard-codes; with grammar-extras `#t = e?` / `#t = e*`; an atomic-rule repetition whose body can fail with the "
+            "exactly the classes in which the two back-ends really differ (WHITESPACE/COMMENT declared `!`; with grammar-extras `#t = e?` / `#t = e*`; an atomic-rule repetition whose body can fail with the "
             "stack popped, which the optimizer prevents since fix 5dcbc11): each has a Coq witness (C02_*_refuted) replayed on the real "
             "code on every run. Every run validates gen_rule/gen_skip/built-ins structurally against the parser the REAL generator emits "
             "for thousands of generated grammars (both feature sets), and compiles a batch of derive-generated parsers which it runs "
@@ -25,7 +24,7 @@ META = {
             "VmCompile.v as the model of vm/src/lib.rs and Exec.v as the model of parser_state.rs (tied to the code by the batch runs here and "
             "by C01/C03); rustc for the compiled batch. The call limit is outside the statement: the back-ends count different calls, and the "
             "generated `repeat` of primitives makes no call at all (with a limit set the VM stops a non-progressing atomic repetition, the generated parser loops).",
-    "design_ref": "DESIGN.md section 3, C02; section 4 rows 3, 11a, 11b, 13",
+    "design_ref": "DESIGN.md section 3, C02; section 4 rows 3, 11a, 13 (row 11b fixed in /repo: shadowed built-ins are inside H and must agree)",
     "coq_targets": ["props/C02.vo", "Extract/GenExtract.vo"],
     "bins": ["c02"],
     "feature_bins": {"extras": ["c02"]},
@@ -33,7 +32,6 @@ META = {
 
 CLASSES = {
     "C02-ws-nonatomic": "WHITESPACE/COMMENT declared `!`: derive emits atomic(NonAtomic, rule(atomic(Atomic, ..))) and produces a token, the VM atomic(Atomic, rule(..)) does not (Coq: C02_ws_nonatomic_refuted)",
-    "C02-shadow-builtin": "a user rule named like ASCII_*/NEWLINE: derive calls the user's rule, the VM matches the hard-coded name first (Coq: C02_shadow_builtin_refuted)",
     "C02-node-tag": "grammar-extras: `#t = e?` / `#t = e*` are special-cased by the generator, the VM runs tag_node after the whole expression (Coq: C02_node_tag_opt_refuted, C02_node_tag_rep_refuted)",
     "C02-dirty-atomic-rep": "e* inside an atomic rule whose body fails with the stack popped: generated repeat(e) keeps the pops, the VM's sequence restores (Coq: C02_dirty_atomic_rep_refuted)",
     "C02-skip-in-push": "PUSH((!s ~ ANY)*) in an atomic rule: the skip optimisation makes the generator emit `state.stack_push(|state| let strings = ..; ..)`, which is not Rust - the derive does not compile while the VM runs the grammar",
@@ -270,9 +268,9 @@ def run(tier, seed, replay=None):
     tot = max(1, stats.get("grammars", 0))
     share = 100.0 * stats.get("in_H", 0) / tot
     log("C02: %d grammars validated structurally, %d read failures; behavioural batch %s grammars, %d (rule, input) cases, %d limited; "
-        "share of generated grammars inside H: %.1f%% (%d of %d; outside: shadow-builtin %d, ws-nonatomic %d, node-tag %d, dirty-atomic-rep %d)" % (
+        "share of generated grammars inside H: %.1f%% (%d of %d; outside: ws-nonatomic %d, node-tag %d, dirty-atomic-rep %d)" % (
             stats.get("tv", 0), stats.get("unread", 0), batches, stats.get("cases", 0), stats.get("limited", 0), share, stats.get("in_H", 0), tot,
-            stats.get("shadow_builtin", 0), stats.get("ws_nonatomic", 0), stats.get("node_tag", 0), stats.get("dirty_atomic_rep", 0)))
+            stats.get("ws_nonatomic", 0), stats.get("node_tag", 0), stats.get("dirty_atomic_rep", 0)))
     res.coverage.update({
         "evaluations": stats.get("evaluations", 0),
         "distinct_nontrivial": stats.get("distinct_nontrivial", 0),
@@ -288,7 +286,7 @@ def run(tier, seed, replay=None):
         "runner_cases": stats.get("cases", 0) + stats.get("tv", 0),
         "mismatches": len(mism),
         "share_in_H_percent": round(share, 1),
-        "classes_outside_H": {k: stats.get(k, 0) for k in ("shadow_builtin", "ws_nonatomic", "node_tag", "dirty_atomic_rep")},
+        "classes_outside_H": {k: stats.get(k, 0) for k in ("ws_nonatomic", "node_tag", "dirty_atomic_rep")},
         "known_classes_seen": sorted(seen_classes.keys()),
         "batch_grammars": batches,
     })
